@@ -293,14 +293,14 @@ Definition h_ttl (now : Z) (d : db) (parts : list frame) : frame * db :=
       | None => (r_int (if eng_exists now d k then -1 else -2), d)
       end
   end.
-(** PTTL: an expired unswept entry answers 0 *)
+(** PTTL: an expired unswept entry answers 0; the millisecond count saturates at i64::MAX *)
 Definition h_pttl (now : Z) (d : db) (parts : list frame) : frame * db :=
   if negb (nparts parts =? 2) then (r_err, d) else
   match nth_arg parts 1 with
   | None => (r_err, d)
   | Some k =>
       match eng_ttl now d k with
-      | Some rem => (r_int rem, d)
+      | Some rem => (r_int (Z.min rem i64_max), d)
       | None => (r_int (if eng_exists now d k then -1 else -2), d)
       end
   end.
